@@ -98,6 +98,85 @@ def fixed_findings() -> list[dict]:
     return out
 
 
+# --------------------------------------------------------------------------- branch coverage of the modelled code
+
+
+def branches(c: dict, obs: str) -> list[str]:
+    """Tags of the modelled branches a case exercises (family-specific knobs × outcome)."""
+    fam = c["fam"]
+    f = "fired" if fired(obs) and not obs.startswith("count=1/0/0") and obs not in ("count=1/0", "count=0/0") else "refused"
+    t = [f"{fam}:{f}"]
+    if fam == "rms":
+        t += [f"rms:cast_in={int(c['cast_in'])}", f"rms:cast_out={int(c['cast_out'])}", f"rms:scale_cast={int(c['scale_cast'])}",
+              f"rms:mul_order={int(c['mul_order'])}", f"rms:eps={c['eps_kind']}"]
+        if c["scale_cast"] and c["sdt"] != c["tdt"]:
+            t.append("rms:scale_cast_changes_type")
+        if len(c["sshape"]) > len(c["xshape"]):
+            t.append("rms:scale_rank_gt_x")
+    elif fam == "skip":
+        t += [f"skip:{c['kind']}:{c['has_bias']}:{f}", f"skip:order={c['add_order']}"]
+        if any(d is None for d in c["in_shape"]):
+            t.append("skip:unknown_dims")
+        if any(isinstance(d, str) for d in c["in_shape"]):
+            t.append("skip:symbolic_dims")
+        if c.get("mag", 1.0) != 1.0 and c["dt"] == "f32":
+            t.append("skip:low_magnitude_rows")
+    elif fam == "gelu":
+        t += [f"gelu:{c['form']}:{f}", f"gelu:pert={c['pert']}"]
+    elif fam == "biasgelu":
+        t.append("biasgelu:" + ("(a,b)" if "(a,b)" in obs else "(b,a)" if "(b,a)" in obs else "refused"))
+    elif fam == "fmm":
+        t += [f"fmm:{c['kind']}:{f}", f"fmm:perm={c['perm_kind']}"]
+        if c.get("xrank", c["rank"]) != c.get("yrank", c["rank"]):
+            t.append("fmm:mixed_rank")
+            if c["perm"] is None:
+                t.append("fmm:mixed_rank_permless")
+        if "transBatch" in obs and fired(obs) and (c["inner"] or {}).get("transBatchA") != 1 and (c["inner"] or {}).get("transBatchB") != 1:
+            t.append("fmm:batch_rule_fired")
+    elif fam == "rope":
+        t += [f"rope:{obs.split(' ')[0]}", f"rope:pos_rank={c['pos_rank']}"]
+        for k in ("partial", "expand", "pos_const"):
+            if c.get(k):
+                t.append(f"rope:{k}")
+        if c.get("cast") == "f16":
+            t.append("rope:cast16")
+        if c["rd"] % 2:
+            t.append("rope:odd")
+    elif fam == "sdpa":
+        t += [f"sdpa:kpat={c['kpat']}", f"sdpa:mask={int(c['mask'] != 'none')}", f"sdpa:scale_attr={int('scale=' in obs)}"]
+    elif fam == "mha":
+        t += [f"mha:{obs.split(' ')[0]}", f"mha:past={int(c['past'])}", f"mha:rotary={int(bool(c.get('rotary')))}",
+              "mha:mask=" + ("none" if c["mask"] == "none" else "expand" if "@Expand" in obs else "direct" if ",mask," in obs else "rejected")]
+    elif fam == "pipe":
+        t += [f"pipe:{c['q_proj']}", f"pipe:{obs.split(' ')[0]}"]
+    elif fam == "gqa":
+        t.append(f"gqa:miss={c['miss']}")
+    elif fam in ("pqkv", "attn", "i2g", "mhab", "softmax"):
+        t.append(f"{fam}:{obs.split(' ')[0]}")
+    return t
+
+
+REQUIRED_BRANCHES = [
+    "rms:fired", "rms:refused", "rms:cast_in=1", "rms:cast_out=1", "rms:scale_cast=1", "rms:mul_order=0", "rms:mul_order=1",
+    "rms:scale_cast_changes_type", "rms:scale_rank_gt_x", "rms:eps=m11", "rms:eps=input",
+    "skip:layer:none:fired", "skip:layer:pre:fired", "skip:layer:post:fired", "skip:rms:none:fired", "skip:rms:pre:fired",
+    "skip:rms:post:fired", "skip:symbolic_dims", "skip:unknown_dims", "skip:low_magnitude_rows",
+    "gelu:tanh:fired", "gelu:erf:fired", "gelu:eg1:fired", "gelu:eg2:fired", "gelu:pert=tol", "gelu:pert=far",
+    "biasgelu:(a,b)", "biasgelu:(b,a)", "biasgelu:refused", "softmax:count=1", "softmax:count=0",
+    "fmm:div:fired", "fmm:mt:fired", "fmm:t1:fired", "fmm:t2:fired", "fmm:t1:refused", "fmm:t2:refused", "fmm:mixed_rank",
+    "fmm:mixed_rank_permless", "fmm:batch_rule_fired", "fmm:perm=bswap", "fmm:perm=none",
+    "rope:count=1/1/0", "rope:count=1/1/1", "rope:count=1/0/0", "rope:count=0/0/0", "rope:cast16", "rope:pos_const",
+    "rope:pos_rank=1", "rope:odd", "rope:expand",
+    "sdpa:kpat=1", "sdpa:kpat=2", "sdpa:kpat=3", "sdpa:mask=1", "sdpa:scale_attr=0", "sdpa:scale_attr=1",
+    "mha:count=1/1/0", "mha:count=1/0/1", "mha:count=1/0/0", "mha:rotary=1", "mha:mask=expand", "mha:mask=direct",
+    "mha:mask=rejected",
+    "pipe:none", "pipe:scale", "pipe:bias", "pipe:scale_bias", "pipe:bias_scale", "pipe:count=1/0/0/0/0",
+    "gqa:fired", "gqa:refused", "gqa:miss=il_both", "gqa:miss=mask_op",
+    "pqkv:count=1", "pqkv:count=0", "attn:count=1", "attn:count=0", "i2g:count=1", "i2g:count=0",
+    "mhab:count=1/1", "mhab:count=0/1", "mhab:count=1/0", "mhab:count=0/0",
+]
+
+
 # --------------------------------------------------------------------------- one case
 
 
@@ -140,6 +219,8 @@ def run_case(c: dict, nrng, stats: Counter, numeric: bool = True, e2e: bool = Fa
         obs = L.observe(model, cnt, fam.ops, known)
         if not fired(obs) or (getattr(fam, "key_op", None) and fam.key_op not in obs):
             obs = obs.split(" ")[0]  # nothing (or not the family's own rule) fired: only the counts are compared
+        if hasattr(fam, "canon"):
+            obs = fam.canon(c, obs)
     except Exception as e:  # the rewriter raised: neither "unchanged" nor "fused"
         obs = "EXC"
         stats["fuse_raised"] += 1
@@ -328,6 +409,7 @@ def main(run: core.Run) -> None:
             got += 1
 
     tie_broken, prop_fail = [], []
+    branch_hits: Counter = Counter()
     results = []
     lines = []
     t_impl = time.time()
@@ -348,6 +430,8 @@ def main(run: core.Run) -> None:
         stats[f"{fam}:cases"] += 1
         stats[f"{fam}:fired" if fired(r["obs"]) else f"{fam}:not_fired"] += 1
         stats[f"{fam}:" + r["obs"].split(" ")[0]] += 1
+        for tag in branches(c, r["obs"]):
+            branch_hits[tag] += 1
         if m != r["obs"]:
             tie_broken.append((c, r, m))
         for key in ("res", "res_e2e"):
@@ -447,6 +531,13 @@ def main(run: core.Run) -> None:
         corpus_cases=n_corpus,
         exhaustive=False,
     )
+    run.coverage["branch_hits"] = dict(sorted(branch_hits.items()))
+    missing_br = [t for t in REQUIRED_BRANCHES if branch_hits[t] == 0]
+    run.coverage["required_branches"] = {"required": len(REQUIRED_BRANCHES), "hit": len(REQUIRED_BRANCHES) - len(missing_br),
+                                         "missing": missing_br}
+    if missing_br and not run.violations:
+        # a generator that stopped reaching a modelled branch must not pass silently (never masks a violation)
+        raise core.Infra(f"generator degenerated: required branches never hit: {missing_br[:8]}")
     for name in F.FAMILIES:
         n = stats[f"{name}:cases"]
         if n == 0:
